@@ -11,6 +11,10 @@ def create_build_finer_grid_fun(epsilon: float, maturity: float):
     ):
         return jump_times, fines_states_values, coarse_states_values
 
+    # a stretch equal to the maximum step up to rounding is not split (otherwise a multiple of epsilon would get a
+    # last inserted point on top of its end point, e.g. of the maturity)
+    threshold = epsilon * (1 + 1e-12)
+
     def _build_finer_grid(self, jump_times, fines_states_values, coarse_states_values):
         # the maturity closes the time grid: it is added as a last point (which repeats the last values) so that the
         # stretch after the last jump is refined as well, and it is removed again from the output
@@ -26,14 +30,14 @@ def create_build_finer_grid_fun(epsilon: float, maturity: float):
         coarse_states_values = with_last_value(coarse_states_values)
         jump_times = np.append(jump_times, maturity)
         dts = np.concatenate(([jump_times[0]], np.diff(jump_times)))
-        if not any(dts > epsilon):
+        if not any(dts > threshold):
             return (
                 jump_times[:-1],
                 fines_states_values[..., :-1],
                 coarse_states_values[..., :-1],
             )
         else:
-            positions = np.nonzero(dts > epsilon)[0]
+            positions = np.nonzero(dts > threshold)[0]
             aug_fine_js = fines_states_values
             aug_coarse_js = coarse_states_values
             aug_dts = dts
@@ -52,7 +56,7 @@ def create_build_finer_grid_fun(epsilon: float, maturity: float):
                     np.where(positions == 0, 0, aug_coarse_js[..., positions - 1]),
                     axis=-1,
                 )
-                positions = np.nonzero(aug_dts > epsilon)[0]
+                positions = np.nonzero(aug_dts > threshold)[0]
             aug_jump_times = np.cumsum(aug_dts)
 
             return aug_jump_times[:-1], aug_fine_js[..., :-1], aug_coarse_js[..., :-1]
